@@ -17,7 +17,7 @@ CHECK = {
     "design_ref": "DESIGN.md section 3 C18",
     "targets": [{"name": "TestC18Sampler",
                  "quick": {"cases": 40000, "shards": 4, "soft_s": 40},
-                 "thorough": {"cases": 500000, "shards": 16, "soft_s": 400}}],
+                 "thorough": {"cases": 2000000, "shards": 16, "soft_s": 400}}],
     "floors": {"top_k_removes": 0.10, "top_p_removes": 0.10, "min_p_removes": 0.10, "temp_zero": 0.05,
                "greedy_distinct": 0.03, "tie_at_max": 0.05, "neginf_present": 0.08, "single_finite": 0.03,
                "hazard_nan_posinf": 0.02, "determinism_nontrivial": 0.15, "len_1": 0.05, "len_gt_40": 0.10,
